@@ -5,16 +5,15 @@ import Amgcl.Model.IOBinary
 MatrixMarket round trip `read (write A) = A` (helper file for C19).
 -/
 namespace Amgcl.IO
-variable {V : Type}
+variable {V : Type} {dom : V → Prop}
 
-/-- what the round trip needs from a value kind: the printed value contains no newline, and `read_value` on the
-rest of a line that consists of white space followed by the printed value returns that value -/
-structure ValKind.RoundTrip (vk : ValKind V) : Prop where
-  noNL : ∀ v, ∀ c ∈ vk.write v, c ≠ 10
-  notComment : ∀ v, (vk.write v).head? ≠ some 37
-  nonempty : ∀ v, vk.write v ≠ []
-  read_write : ∀ v, ∃ r, vk.read (vk.write v) = some (v, r)
-  read_sp_write : ∀ v, ∃ r, vk.read (32 :: vk.write v) = some (v, r)
+/-- what the round trip needs from a value kind, on the set `dom` of values it is claimed for (finite numbers;
+`int`s inside the 32-bit range): the printed value contains no newline, and `read_value` applied to the printed
+value (alone on a line, or behind the blank that separates it from the indices) returns that value -/
+structure ValKind.RoundTrip (vk : ValKind V) (dom : V → Prop) : Prop where
+  noNL : ∀ v, dom v → ∀ c ∈ vk.write v, c ≠ 10
+  read_write : ∀ v, dom v → ∃ r, vk.read (vk.write v) = some (v, r)
+  read_sp_write : ∀ v, dom v → ∃ r, vk.read (32 :: vk.write v) = some (v, r)
   flags : ¬ (vk.isComplex = true ∧ vk.isIntegral = true)
 
 /-- the text line of one entry -/
@@ -29,7 +28,8 @@ def entriesFrom (i : Nat) : List (Row V) → List (Nat × Nat × V)
 theorem natDec_no_nl (n : Nat) : ∀ c ∈ natDec n, c ≠ 10 :=
   fun c hc => isDigit_ne_nl c ((natDec_spec n).2.1 c hc)
 
-theorem entryLine_no_nl (vk : ValKind V) (hvk : vk.RoundTrip) (e : Nat × Nat × V) : ∀ c ∈ entryLine vk e, c ≠ 10 := by
+theorem entryLine_no_nl (vk : ValKind V) (hvk : vk.RoundTrip dom) (e : Nat × Nat × V) (he : dom e.2.2) :
+    ∀ c ∈ entryLine vk e, c ≠ 10 := by
   intro c hc
   unfold entryLine at hc
   simp only [List.mem_append, List.mem_cons] at hc
@@ -38,9 +38,10 @@ theorem entryLine_no_nl (vk : ValKind V) (hvk : vk.RoundTrip) (e : Nat × Nat ×
   · omega
   · exact natDec_no_nl _ c hc
   · omega
-  · exact hvk.noNL _ c hc
+  · exact hvk.noNL _ he c hc
 
-theorem splitLines_writeRow (vk : ValKind V) (hvk : vk.RoundTrip) (i : Nat) (r : Row V) (rest : Bytes) :
+theorem splitLines_writeRow (vk : ValKind V) (hvk : vk.RoundTrip dom) (i : Nat) (r : Row V) (rest : Bytes)
+    (hr : ∀ cv ∈ r, dom cv.2) :
     splitLines (writeRow vk i r ++ rest)
       = (r.map (fun cv => entryLine vk (i, cv.1, cv.2))) ++ splitLines rest := by
   induction r with
@@ -49,20 +50,22 @@ theorem splitLines_writeRow (vk : ValKind V) (hvk : vk.RoundTrip) (i : Nat) (r :
     obtain ⟨c, v⟩ := cv
     have : writeRow vk i ((c, v) :: t) ++ rest = entryLine vk (i, c, v) ++ 10 :: (writeRow vk i t ++ rest) := by
       simp [writeRow, entryLine, List.append_assoc]
-    rw [this, splitLines_append _ _ (entryLine_no_nl vk hvk _), ih]
+    rw [this, splitLines_append _ _ (entryLine_no_nl vk hvk _ (hr (c, v) (by simp))),
+      ih (fun cv hcv => hr cv (by simp [hcv]))]
     rfl
 
-theorem splitLines_writeRows (vk : ValKind V) (hvk : vk.RoundTrip) (i : Nat) (rows : List (Row V)) :
+theorem splitLines_writeRows (vk : ValKind V) (hvk : vk.RoundTrip dom) (i : Nat) (rows : List (Row V))
+    (hrows : ∀ r ∈ rows, ∀ cv ∈ r, dom cv.2) :
     splitLines (writeRows vk i rows) = (entriesFrom i rows).map (entryLine vk) := by
   induction rows generalizing i with
   | nil => rfl
   | cons r t ih =>
     simp only [writeRows, entriesFrom, List.map_append, List.map_map]
-    rw [splitLines_writeRow vk hvk, ih]
+    rw [splitLines_writeRow vk hvk _ _ _ (hrows r (by simp)), ih _ (fun r' hr' => hrows r' (by simp [hr']))]
     rfl
 
-theorem parseEntry_entryLine (vk : ValKind V) (hvk : vk.RoundTrip) (n m : Nat) (e : Nat × Nat × V)
-    (h1 : e.1 < n) (h2 : e.2.1 < m) (hn : n < 9223372036854775808) (hm : m < 9223372036854775808) :
+theorem parseEntry_entryLine (vk : ValKind V) (hvk : vk.RoundTrip dom) (n m : Nat) (e : Nat × Nat × V)
+    (h1 : e.1 < n) (h2 : e.2.1 < m) (hd : dom e.2.2) (hn : n < 9223372036854775808) (hm : m < 9223372036854775808) :
     parseEntry true (n : Int) (m : Int) vk (entryLine vk e) = .ok ((e.1 : Int), (e.2.1 : Int), e.2.2) := by
   unfold parseEntry entryLine
   have p63 : (2 : Nat) ^ (64 - 1) = 9223372036854775808 := by decide
@@ -70,7 +73,7 @@ theorem parseEntry_entryLine (vk : ValKind V) (hvk : vk.RoundTrip) (n m : Nat) (
   simp only []
   rw [extractInt_sp_natDec true 64 (e.2.1 + 1) _ (Or.inr ⟨_, rfl⟩) (by simp only [if_true]; rw [p63]; omega)]
   simp only []
-  obtain ⟨r, hr⟩ := hvk.read_sp_write e.2.2
+  obtain ⟨r, hr⟩ := hvk.read_sp_write e.2.2 hd
   rw [hr]
   simp only []
   rw [if_neg]
@@ -79,8 +82,8 @@ theorem parseEntry_entryLine (vk : ValKind V) (hvk : vk.RoundTrip) (n m : Nat) (
     · congr 1; push_cast; omega
   · simp; omega
 
-theorem parseEntries_lines (vk : ValKind V) (hvk : vk.RoundTrip) (n m : Nat) (es : List (Nat × Nat × V))
-    (hes : ∀ e ∈ es, e.1 < n ∧ e.2.1 < m) (hn : n < 9223372036854775808) (hm : m < 9223372036854775808) :
+theorem parseEntries_lines (vk : ValKind V) (hvk : vk.RoundTrip dom) (n m : Nat) (es : List (Nat × Nat × V))
+    (hes : ∀ e ∈ es, e.1 < n ∧ e.2.1 < m ∧ dom e.2.2) (hn : n < 9223372036854775808) (hm : m < 9223372036854775808) :
     parseEntries true (n : Int) (m : Int) vk es.length (es.map (entryLine vk))
       = .ok (es.map (fun e => ((e.1 : Int), (e.2.1 : Int), e.2.2))) := by
   induction es with
@@ -88,7 +91,7 @@ theorem parseEntries_lines (vk : ValKind V) (hvk : vk.RoundTrip) (n m : Nat) (es
   | cons e t ih =>
     have he := hes e (by simp)
     simp only [List.length_cons, List.map_cons, parseEntries]
-    rw [parseEntry_entryLine vk hvk n m e he.1 he.2 hn hm, ih (fun x hx => hes x (by simp [hx]))]
+    rw [parseEntry_entryLine vk hvk n m e he.1 he.2.1 he.2.2 hn hm, ih (fun x hx => hes x (by simp [hx]))]
 
 theorem keepEntries_general (n : Nat) (es : List (Nat × Nat × V)) (hes : ∀ e ∈ es, e.1 < n) :
     keepEntries false 0 (n : Int) (es.map (fun e => ((e.1 : Int), (e.2.1 : Int), e.2.2)))
@@ -133,7 +136,7 @@ theorem bucket_entriesFrom (i0 : Nat) (rows : List (Row V)) (r : Nat) :
 end Amgcl.IO
 
 namespace Amgcl.IO
-variable {V : Type}
+variable {V : Type} {dom : V → Prop}
 
 /-- first line written by the sparse `mm_write` -/
 def bannerSparse (kw : Bytes) : Bytes := kwBanner ++ 32 :: (kwMatrix ++ 32 :: (kwCoordinate ++ 32 :: (kw ++ kwGeneral)))
@@ -202,22 +205,22 @@ theorem crs_nnz_eq (A : CRS V) : A.nnz = (entriesFrom 0 A.rows.toList).length :=
   | nil => intro acc i; simp [entriesFrom]
   | cons r t ih => intro acc i; simp [List.foldl_cons, ih _ (i + 1), entriesFrom]; omega
 
-theorem entriesFrom_bounds (i0 : Nat) (rows : List (Row V)) (m : Nat) (hwf : ∀ r ∈ rows, ∀ cv ∈ r, cv.1 < m) :
-    ∀ e ∈ entriesFrom i0 rows, i0 ≤ e.1 ∧ e.1 < i0 + rows.length ∧ e.2.1 < m := by
+theorem entriesFrom_bounds (i0 : Nat) (rows : List (Row V)) (m : Nat) (hwf : ∀ r ∈ rows, ∀ cv ∈ r, cv.1 < m ∧ dom cv.2) :
+    ∀ e ∈ entriesFrom i0 rows, i0 ≤ e.1 ∧ e.1 < i0 + rows.length ∧ e.2.1 < m ∧ dom e.2.2 := by
   induction rows generalizing i0 with
   | nil => intro e he; cases he
   | cons r t ih =>
     intro e he
     simp only [entriesFrom, List.mem_append, List.mem_map] at he
     rcases he with ⟨cv, hcv, rfl⟩ | he
-    · exact ⟨Nat.le_refl _, by simp, hwf r (by simp) cv hcv⟩
+    · exact ⟨Nat.le_refl _, by simp, (hwf r (by simp) cv hcv).1, (hwf r (by simp) cv hcv).2⟩
     · have := ih (i0 + 1) (fun r' hr' => hwf r' (by simp [hr'])) e he
-      simp only [List.length_cons]; omega
+      simp only [List.length_cons]; exact ⟨by omega, by omega, this.2.2.1, this.2.2.2⟩
 
 end Amgcl.IO
 
 namespace Amgcl.IO
-variable {V : Type}
+variable {V : Type} {dom : V → Prop}
 
 theorem mmOpen_written (line1 sizeLine bodyText : Bytes) (sp sy cx ig : Bool)
     (hb : parseBanner line1 = some (sp, sy, cx, ig)) (hnl1 : ∀ c ∈ line1, c ≠ 10)
@@ -254,7 +257,8 @@ theorem rowsOfN_written (narrow : Int → Int) (rows : List (Row V)) (n : Nat) (
 
 /-- **MatrixMarket round trip, sparse**: reading back what `mm_write` wrote returns the same rows, each passed
 through `sort_row` (for any value kind whose `read_value ∘ write_value` is the identity) -/
-theorem mmReadSparse_write (memLimit : Nat) (vk : ValKind V) (hvk : vk.RoundTrip) (A : CRS V) (hA : A.WF)
+theorem mmReadSparse_write (memLimit : Nat) (vk : ValKind V) (hvk : vk.RoundTrip dom) (A : CRS V) (hA : A.WF)
+    (hdom : ∀ r ∈ A.rows.toList, ∀ cv ∈ r, dom cv.2)
     (hn : A.nrows < 9223372036854775808) (hm : A.ncols < 9223372036854775808)
     (hnnz : A.nnz < 18446744073709551616) (hmem : (A.nrows + 1) * 8 ≤ memLimit) :
     mmReadSparse true memLimit vk (mmWriteSparse vk A) (-1) (-1)
@@ -300,14 +304,14 @@ theorem mmReadSparse_write (memLimit : Nat) (vk : ValKind V) (hvk : vk.RoundTrip
   rw [hrr]
   simp only []
   -- body
-  have hrows : ∀ r ∈ A.rows.toList, ∀ cv ∈ r, cv.1 < A.ncols := hA
+  have hrows : ∀ r ∈ A.rows.toList, ∀ cv ∈ r, cv.1 < A.ncols ∧ dom cv.2 := fun r hr cv hcv => ⟨hA r hr cv hcv, hdom r hr cv hcv⟩
   have hbounds := entriesFrom_bounds 0 A.rows.toList A.ncols hrows
   have hlen : A.rows.toList.length = A.nrows := by simp [CRS.nrows]
-  have hes : ∀ e ∈ entriesFrom 0 A.rows.toList, e.1 < A.nrows ∧ e.2.1 < A.ncols := by
-    intro e he; have := hbounds e he; rw [hlen] at this; omega
+  have hes : ∀ e ∈ entriesFrom 0 A.rows.toList, e.1 < A.nrows ∧ e.2.1 < A.ncols ∧ dom e.2.2 := by
+    intro e he; have := hbounds e he; rw [hlen] at this; exact ⟨by omega, this.2.2.1, this.2.2.2⟩
   have hparse : parseEntries true (A.nrows : Int) (A.ncols : Int) vk A.nnz (splitLines (writeRows vk 0 A.rows.toList))
       = .ok ((entriesFrom 0 A.rows.toList).map (fun e => ((e.1 : Int), (e.2.1 : Int), e.2.2))) := by
-    rw [splitLines_writeRows vk hvk, crs_nnz_eq]
+    rw [splitLines_writeRows vk hvk _ _ hdom, crs_nnz_eq]
     exact parseEntries_lines vk hvk A.nrows A.ncols _ hes hn hm
   have hbody := mmSparseBody_eq memLimit vk
     ⟨false, (A.nrows : Int), (A.ncols : Int), A.nnz, splitLines (writeRows vk 0 A.rows.toList)⟩ 0 (A.nrows : Int)
